@@ -6,8 +6,8 @@ import props.C01 as B
 
 # clean (exit 0, no KNOWN-FINDING) at seeds 1..5 on the tree with the Hop-Limit fix (branch ws-P04).
 MANIFEST = {
-    "text": 'Proved in Lean, for every abstract message the API can produce, every argument and every capacity (refusals included): coap_insert_option (append path, the middle path with all six next-option header rewrite cases, implicit Hop-Limit), coap_update_option (in-place replacement of the first match with any length change, else insertion), coap_remove_option (first match removed, following delta re-encoded in all six growth cases, or max_opt falling back) and coap_update_token (all three memmove directions) map the PDU representing an abstract (token, ordered option list, payload) message to the PDU representing the abstract edit of the specification; hence any sequence of such edits never leaves the buffer and ends on the PDU representing the same edits applied to the abstract model (edits_then_roundtrip), which serialises and decodes to exactly that model on udp/tcp/ws whenever it is well-formed — and it is well-formed whenever the start message was and every inserted/updated value respects the RFC length limit of its option (edits_then_roundtrip_wf: hypotheses on the inputs only); the PDU the parser leaves behind for a received message is such a representing PDU (parsed_start_is_refined); plus the frame theorems (an edit changes only the element it names, order kept). A refused edit leaves the PDU exactly as it was (the former open finding — a refused Proxy-Uri/Proxy-Scheme on a request left Hop-Limit=16 behind — is fixed in libcoap and M is transcribed from the fixed code). The model M is tied to the C code by differential runs (edit sequences up to 45 calls on parsed and built messages, thresholds 13/269 crossed in both directions, tight maximum sizes; I vs M vs S byte for byte, per-call digests).',
-    "note": 'Same trusted base and fixes as C01; no open finding. The theorems are about the hand transcription M (Model/Build.lean); M = the compiled code is measured on the generated cases only. The RFC per-option length limits are a hypothesis on the values the caller passes (the API does not enforce them); on tcp the edited message must still fit the 32-bit extended length. M.ofParsed (what coap_pdu_parse leaves in the PDU) is tied to the code by the differential runs. Removal branches are exercised but not individually attributable from the harness output.',
+    "text": 'Proved in Lean, for every abstract message the API can produce, every argument and every capacity (refusals included): coap_insert_option (append path, the middle path with all six next-option header rewrite cases, implicit Hop-Limit), coap_update_option (in-place replacement of the first match with any length change, else insertion), coap_remove_option (first match removed, following delta re-encoded in all six growth cases, or max_opt falling back) and coap_update_token (all three memmove directions) map the PDU representing an abstract (token, ordered option list, payload) message to the PDU representing the abstract edit of the specification; hence any sequence of such edits never leaves the buffer and ends on the PDU representing the same edits applied to the abstract model (edits_then_roundtrip), which serialises and decodes to exactly that model on udp/tcp/ws whenever it is well-formed — and it is well-formed whenever the start message was and every inserted/updated value respects the RFC length limit of its option (edits_then_roundtrip_wf: hypotheses on the inputs only); the PDU the parser leaves behind for a received message is such a representing PDU (parsed_start_is_refined); plus the frame theorems (an edit changes only the element it names, order kept). coap_pdu_duplicate_lkd — the copy the library goes on editing (block-wise transfer, proxy, OSCORE, async) — is covered as the edit sequence "replace the token, remove every option the drop filter names" on a copy without payload (D16: duplicate_is_edit_sequence, duplicate_frame): on the PDU representing any abstract message, for every new token, message id, filter, session size and capacity, the memcpy branch (drop_options NULL) returns NULL exactly when token + options do not fit / the token is over-long, and otherwise the PDU representing the abstract copy whatever the two token lengths are (duplicate_memcpy_refines, closed form); the filter branch returns NULL or the PDU representing the copy with exactly the options not named, numbers/values/order kept, Hop-Limit=16 added only where D13 allows (duplicate_filter_refines); both after any edit sequence and with the round trip of the copy (edits_then_duplicate). A refused edit leaves the PDU exactly as it was (the former open finding — a refused Proxy-Uri/Proxy-Scheme on a request left Hop-Limit=16 behind — is fixed in libcoap and M is transcribed from the fixed code). The model M is tied to the C code by differential runs (edit sequences up to 45 calls on parsed and built messages, thresholds 13/269 crossed in both directions, tight maximum sizes; duplications of parsed / built / edited messages with tokens of equal, neighbouring and other length classes, NULL / empty / overflowing filters, session sizes around the exact fit, further edits on the copy; I vs M vs S byte for byte, per-call digests, the digest of the original after the duplication).',
+    "note": 'Same trusted base and fixes as C01; no open finding. The theorems are about the hand transcription M (Model/Build.lean); M = the compiled code is measured on the generated cases only. The RFC per-option length limits are a hypothesis on the values the caller passes (the API does not enforce them); on tcp the edited message must still fit the 32-bit extended length. M.ofParsed (what coap_pdu_parse leaves in the PDU) is tied to the code by the differential runs. Removal branches are exercised but not individually attributable from the harness output. coap_pdu_duplicate: one libcoap defect fixed on the way (56eb60f: the result of coap_add_token was ignored, a token that did not fit gave a copy WITHOUT token); coap_opt_filter_t is modelled as the set of numbers held (2 long + 6 short slots), the slot/mask layout is tied by the runs only (return value of every filter_set, effect of every filter_get on the copy); the two session calls (new message id, maximum PDU size) are oracles pinned by the harness through tx_mid / mtu of a UDP client session; lg_xmit (a pointer copy) is not observed.',
     "design_ref": "design/C04.md, DESIGN.md §4 C04",
 }
 
@@ -15,18 +15,31 @@ LEAN_MODULES = ["CoapVerif.Props.C04"]
 NAMESPACE = "Coap.C04"
 REQUIRED_THEOREMS = ["edit_frame", "edits_keep_order", "edit_sequence_keeps_order", "update_token_refines", "roundtrip_of_refined",
                      "insert_refines", "insert_refines_middle", "update_refines", "update_refines_present", "remove_refines",
-                     "edits_then_roundtrip", "parsed_start_is_refined", "edits_keep_wellformed", "edits_then_roundtrip_wf"]
+                     "edits_then_roundtrip", "parsed_start_is_refined", "edits_keep_wellformed", "edits_then_roundtrip_wf",
+                     # coap_pdu_duplicate (D16)
+                     "duplicate_is_edit_sequence", "duplicate_frame", "duplicate_memcpy_refines", "duplicate_filter_refines",
+                     "edits_then_duplicate"]
 NOT_PROVED = []
 RULE = ("edit sequences (coap_insert_option / coap_update_option / coap_remove_option / coap_update_token, mixed with "
         "add_option / add_data) of up to 40 calls applied to (a) messages parsed from generated wire bytes for "
         "udp/tcp/ws, with and without payload, and (b) freshly built messages; option numbers chosen so that the "
         "delta of the FOLLOWING option crosses 12/13 and 268/269 in both directions; replacement tokens of length "
         "classes 0, 1-8, 9-12, 13, 14-268, 269, 270-65804; maximum sizes from 'exactly fits' upwards so that growth "
-        "is refused at every possible step; non-trivial = distinct case with at least one accepted edit")
+        "is refused at every possible step; (c) coap_pdu_duplicate of (a)/(b)-style messages (edited or not): new token of "
+        "the same length, +-1/2/4/8, the class boundaries 0/12/13/14/268/269/270 or any class; drop filter NULL (memcpy "
+        "branch), empty, or 1-10 numbers drawn from the options of the message, Hop-Limit/Proxy-*, the 255/256 slot boundary, "
+        "same-low-byte aliases, more than the 6+2 slots; session maximum size generous, 0, exact fit -3..+8, or random "
+        "below; then 0-8 further edits / add_data on the copy; non-trivial = distinct case with at least one accepted "
+        "edit (dup lines: a copy was returned)")
 TRUSTED_BASE = B.TRUSTED_BASE
 ASSUMPTIONS = B.ASSUMPTIONS + ["a parsed start message is represented by the PDU coap_pdu_parse leaves behind "
                                "(max_opt = last option number, data = offset behind the marker): M.ofParsed, tied by T2"]
-SPEC_DECISIONS = B.SPEC_DECISIONS
+ASSUMPTIONS = ASSUMPTIONS + ["coap_pdu_duplicate: coap_new_message_id_lkd / coap_session_max_pdu_size_lkd are oracles "
+                             "(harness: UDP client session, tx_mid and mtu set directly); coap_opt_filter_t = the set of "
+                             "numbers successfully set on a cleared filter (6 short + 2 long slots), tied by T2"]
+SPEC_DECISIONS = B.SPEC_DECISIONS + ["D16 coap_pdu_duplicate = on a copy without payload and with the session's next "
+                                     "message id: token replacement, then removal of every option the filter names; may "
+                                     "be refused as a whole (NULL); D13 applies to the copy"]
 
 extract = B.extract
 harness = B.harness
@@ -79,6 +92,108 @@ def gen_edits(rng, nums, code, big, maxn=40):
     return ops[:maxn]
 
 
+# ---------------------------------------------------------------- coap_pdu_duplicate (ops dupb / dupe)
+def enc_tok_len(n):
+    return n + (0 if n < 13 else 1 if n < 269 else 2)
+
+
+def dup_token(rng, old_len, big):
+    """token of the copy: same length as the original's, one off, another length class, or anything"""
+    c = rng.random()
+    if c < 0.25:
+        n = old_len
+    elif c < 0.40:
+        n = max(0, old_len + rng.choice([-2, -1, 1, 2, 4, 8]))
+    elif c < 0.50:
+        n = rng.choice([0, 12, 13, 14, 268, 269, 270])
+    else:
+        n = B.tok_len(rng, big)
+    return n, B.val(rng, n)
+
+
+def dup_filter(rng, nums, code):
+    """N = NULL (memcpy path), - = empty filter, or the numbers of the coap_option_filter_set calls"""
+    c = rng.random()
+    if c < 0.40:
+        return "N"
+    if c < 0.48:
+        return "-"
+    f = []
+    for _ in range(rng.choice([1, 1, 2, 2, 3, 4, 6, 7, 9])):
+        c = rng.random()
+        if c < 0.6 and nums:
+            f.append(rng.choice(nums))
+        elif c < 0.7:
+            f.append(rng.choice([16, 35, 39]))           # Hop-Limit / Proxy-*: D13 on the copy
+        elif c < 0.85:
+            f.append(B.opt_num(rng))
+        else:
+            f.append(rng.choice([0, 255, 256, 257, 511, 65535] + nums))   # short/long slot boundary, low byte aliases
+    if nums and rng.random() < 0.1:
+        f.append(rng.choice(nums) ^ 256)                 # same low byte, other slot class
+    return ",".join(str(x & 0xFFFF) for x in f)
+
+
+def dup_smax(rng, est):
+    """result of coap_session_max_pdu_size_lkd: generous, 0, or around the size the copy needs"""
+    c = rng.random()
+    if c < 0.35:
+        return rng.choice([1152, 1152, 1400, 65535, 8388858, 8388859])
+    if c < 0.42:
+        return 0
+    if c < 0.75:
+        return max(0, est + rng.choice([-3, -2, -1, 0, 0, 0, 1, 2, 3, 5, 8]))
+    return rng.randint(1, est + 4)
+
+
+def gen_dup(rng):
+    proto = rng.choice(["udp", "udp", "tcp", "ws"])
+    big = rng.random() < 0.02
+    mid = rng.choice([0, 1, 65535, rng.randint(0, 65535)])
+    if rng.random() < 0.55:
+        # the original is a received message, edited or not
+        typ, code, omid, token, opts, pl = G.gen_msg(rng, big=big, valid_len=True)
+        if code == 0:
+            code = rng.choice([1, 2, 69])
+        if 1 <= code < 32 and rng.random() < 0.2:         # Proxy-Uri / Proxy-Scheme with or without Hop-Limit
+            opts = sorted(opts + [(rng.choice([35, 39]), b"x")] + ([(16, b"\x05")] if rng.random() < 0.5 else []),
+                          key=lambda o: o[0])
+            seen, o2 = set(), []
+            for o in opts:
+                if o[0] in (16, 35, 39) and o[0] in seen:
+                    continue
+                seen.add(o[0]); o2.append(o)
+            opts = o2
+        wire = G.encode(proto, typ, code, omid, token, opts, pl)
+        nums = [o[0] for o in opts]
+        ops1 = gen_edits(rng, nums, code, big, maxn=6) if rng.random() < 0.4 else []
+        c = rng.random()
+        ms = 0 if c < 0.5 else len(wire) + rng.choice([0, 1, 4, 16, 300]) if c < 0.8 else rng.choice([1152, 65535])
+        optbytes = len(G.encode("udp", 0, code, 0, b"", opts, b"")) - 4
+        ntok, tok = dup_token(rng, len(token), big)
+        head = "dupe %s %d %s %s" % (proto, ms, hx(wire), ";".join(ops1) if ops1 else "-")
+    else:
+        code, ops1 = B.gen_script(rng, big, edits=rng.random() < 0.5)
+        nums = [int(o[1:].split(":")[0]) for o in ops1 if o[0] in "OIU"]
+        c = rng.random()
+        ms = 0 if c < 0.6 else rng.choice([1152, 65535]) if c < 0.8 else max(1, rng.randint(1, B.script_size(ops1) + 4))
+        optbytes = B.script_size([o for o in ops1 if o[0] in "OIU"])
+        told = [o for o in ops1 if o[0] in "TK"]
+        tl = told[-1][1:] if told else "-"
+        old_len = int(tl.split("*")[1]) if tl.startswith("*") else 0 if tl == "-" else len(tl) // 2
+        ntok, tok = dup_token(rng, old_len, big)
+        head = "dupb %s %d %d %d %d %s" % (proto, ms, rng.randint(0, 3), code, rng.randint(0, 65535),
+                                          ";".join(ops1) if ops1 else "-")
+    flt = dup_filter(rng, nums, code)
+    smax = dup_smax(rng, enc_tok_len(ntok) + optbytes)
+    ops2 = []
+    if rng.random() < 0.45:
+        ops2 = gen_edits(rng, nums, code if code else 1, big, maxn=rng.choice([1, 2, 4, 8]))
+        if rng.random() < 0.4:
+            ops2.append("D" + B.val(rng, rng.choice([1, 2, 12, 13, rng.randint(1, 300)])))
+    return "%s %d %d %s %s %s" % (head, smax, mid, tok, flt, ";".join(ops2) if ops2 else "-")
+
+
 def generate(ctx, escalate=False):
     rng = ctx.rng
     n = 100000 if ctx.thorough() else 10000
@@ -107,6 +222,9 @@ def generate(ctx, escalate=False):
             c = rng.random()
             ms = 0 if c < 0.5 else max(1, rng.randint(1, B.script_size(ops) + 4))
             out.append("build %s %d %d %d %d %s" % (proto, ms, rng.randint(0, 3), code, rng.randint(0, 65535), ";".join(ops) if ops else "-"))
+    # (c) duplication of (a)/(b)-style messages, edits continued on the copy (after the others: their stream is unchanged)
+    for i in range(n // 3):
+        out.append(gen_dup(rng))
     return out
 
 
@@ -121,14 +239,34 @@ def wire_code(proto, wire):
         return 1
 
 
+DUP_IDX = {"dupb": (6, 11), "dupe": (4, 9)}      # word index of <ops1>, <ops2>
+
+
+def dup_ops(line):
+    """(ops1, ops2) of a dupb / dupe line"""
+    w = line.split()
+    a, b = DUP_IDX[w[0]]
+    return ([] if w[a] == "-" else w[a].split(";")), ([] if w[b] == "-" else w[b].split(";"))
+
+
+def all_ops(line):
+    if line.split()[0] in DUP_IDX:
+        a, b = dup_ops(line)
+        return a + b
+    return B.script_ops(line)
+
+
 def in_domain(line):
     w = line.split()
     if w[0] == "build":
         return B.in_domain(line)
-    code = wire_code(w[1], w[3])
+    if w[0] == "dupb":
+        code = int(w[4])
+    else:
+        code = wire_code(w[1], w[3])
     if code == 0:
-        return w[4] == "-"
-    for o in B.script_ops(line):
+        return w[0] == "edit" and w[4] == "-"
+    for o in all_ops(line):
         if o[0] in "OIU":
             num, v = o[1:].split(":")
             ln = int(v.split("*")[1]) if v.startswith("*") else (0 if v == "-" else len(v) // 2)
@@ -137,8 +275,84 @@ def in_domain(line):
     return True
 
 
+def dfields(s):
+    """dup output line → dict (head words k=v, plus built / reparse when the copy exists)"""
+    if s is None or " flt=" not in s:
+        return {}
+    d = fields(s)
+    if not d:
+        for w in s.split():
+            if "=" in w:
+                k, v = w.split("=", 1); d[k] = v
+    return d
+
+
+def refused_in(ops, steps, prev):
+    """(index, op, before, after) of the first call that returned 0 and changed used_size.fnv32"""
+    if steps in (None, "-") or prev is None:
+        return None
+    for k, (op, st) in enumerate(zip(ops, steps.split(","))):
+        if "." not in st:
+            return None
+        rc, dig = st.split(".", 1)
+        if rc == "0" and dig != prev:
+            return (k, op, prev, dig)
+        prev = dig
+    return None
+
+
+def last_digest(steps, start):
+    if steps in (None, "-"):
+        return start
+    st = steps.split(",")[-1]
+    return st.split(".", 1)[1] if "." in st else None
+
+
+def judge_dup(ctx, c):
+    """coap_pdu_duplicate: the original stays as it was; the copy is the abstract copy (D16) — judged on the accessor dump,
+    the serialised bytes and their re-parse; a refused duplication (NULL) is admissible (D14), WHEN it is refused is M's."""
+    i, m, s = c["impl"], c["model"], c["spec"]
+    line = c["input"]
+    proto = line.split()[1]
+    if i is not None and i.startswith("crash"):
+        return ("spec", "duplicating the message aborts the process: " + i[:200])
+    fi = dfields(i)
+    if not fi:
+        return None if i == m else ("tie", "implementation %s but model M says %s" % (short(i), short(m)))
+    ops1, ops2 = dup_ops(line)
+    start = fi.get("start") if line.startswith("dupe") else B.EMPTY_DIGEST
+    bad = refused_in(ops1, fi.get("steps"), start)
+    if bad:
+        return ("spec", "refused call #%d %s returned 0 but changed the PDU: used_size.fnv32 %s -> %s" % (bad[0] + 1, short(bad[1]), bad[2], bad[3]))
+    before = last_digest(fi.get("steps"), start)
+    if before is not None and fi.get("old") is not None and fi["old"] != before:
+        return ("spec", "coap_pdu_duplicate changed the ORIGINAL: used_size.fnv32 %s -> %s" % (before, fi["old"]))
+    if fi.get("dup") == "ok":
+        bad = refused_in(ops2, fi.get("steps2"), fi.get("copy"))
+        if bad:
+            return ("spec", "refused call #%d %s on the copy returned 0 but changed it: used_size.fnv32 %s -> %s" % (bad[0] + 1, short(bad[1]), bad[2], bad[3]))
+        dom = in_domain(line)
+        if dom and "reparse" in fi and fi.get("hdr") != "0" and fi["reparse"] != "ok " + B.d3(proto, fi["built"]):
+            return ("spec", "round trip of the copy broken: its accessors show %s but its serialised bytes re-parse as %s" % (short(fi["built"]), short(fi["reparse"])))
+        if dom and fi.get("hdr") == "0":
+            return ("spec", "the copy cannot be serialised (coap_pdu_encode_header returned 0)")
+        if "reparse" in fi and s and s != "skip":
+            spat = s.split(" ")[0][4:]
+            if rc_pattern(fi.get("steps")) + "/" + rc_pattern(fi.get("steps2")) == spat.replace("-", ""):
+                alts = s_alts(s) or [(False, "(no admissible abstract result)", "-")]
+                if not any(fi["reparse"] == "ok " + sm for tag, sm, sb in alts):
+                    return ("spec", "the copy %s is not the original with the new token and without the dropped options: abstract model %s" % (short(fi["reparse"]), short(alts[0][1])))
+                if not any(fi["reparse"] == "ok " + sm and fi["bytes"] == sb for tag, sm, sb in alts):
+                    return ("spec", "serialised bytes of the copy %s differ from Spec.encode of the abstract copy %s" % (short(fi["bytes"]), short(alts[0][2])))
+    if i != m:
+        return ("tie", "implementation %s but model M says %s" % (short(i), short(m)))
+    return None
+
+
 def judge(ctx, c):
     """C01's rules, with the domain test extended to `edit` lines"""
+    if c["input"].split(" ", 1)[0] in DUP_IDX:
+        return judge_dup(ctx, c)
     i, m, s = c["impl"], c["model"], c["spec"]
     proto = c["input"].split()[1]
     if i is not None and i.startswith("crash"):
@@ -170,11 +384,18 @@ def judge(ctx, c):
 
 
 def nontrivial(c):
+    if c["input"].split(" ", 1)[0] in DUP_IDX:
+        return dfields(c["impl"]).get("dup") == "ok"
     return "1" in rc_pattern(fields(c["impl"]).get("steps"))
 
 
 def classify(c):
     w = c["input"].split()
+    if w[0] in DUP_IDX:
+        f = dfields(c["impl"])
+        flt = w[DUP_IDX[w[0]][1] - 1]
+        return "%s:%s:%s:%s%s" % (w[0], w[1], "memcpy" if flt == "N" else "filter", f.get("dup", "-"),
+                                  ":then-edited" if w[DUP_IDX[w[0]][1]] != "-" else "")
     pat = rc_pattern(fields(c["impl"]).get("steps"))
     ms = w[2]
     return "%s:%s:%s:%s" % (w[0], w[1], "limited" if ms != "0" else "unlimited", "some-refused" if "0" in pat else "all-accepted")
@@ -185,10 +406,30 @@ def _mk(w, ops):
     return " ".join(w[:k] + [";".join(ops) if ops else "-"])
 
 
+def dup_variants(line):
+    """a dup line with one call of <ops1> or <ops2> deleted, <ops2> dropped, or the filter emptied"""
+    w = line.split()
+    ia, ib = DUP_IDX[w[0]]
+    out = []
+    for idx in (ib, ia):
+        ops = [] if w[idx] == "-" else w[idx].split(";")
+        if idx == ib and ops:
+            out.append(" ".join(w[:idx] + ["-"] + w[idx + 1:]))
+        for k in range(len(ops)):
+            rest = ops[:k] + ops[k + 1:]
+            out.append(" ".join(w[:idx] + [";".join(rest) if rest else "-"] + w[idx + 1:]))
+    if w[ib - 1] not in ("N", "-"):
+        out.append(" ".join(w[:ib - 1] + ["-"] + w[ib:]))
+    return out
+
+
 def search(ctx, tie_breaks, proof):
     out = []
     for c in tie_breaks[:30]:
         w = c["input"].split()
+        if w[0] in DUP_IDX:
+            out += dup_variants(c["input"])
+            continue
         ops = B.script_ops(c["input"])
         for k in range(1, len(ops)):
             out.append(_mk(w, ops[:k]))
@@ -201,6 +442,18 @@ def shrink(ctx, case):
     from vlib.runner import diff_side
     import props.C04 as me
     w = case["input"].split()
+    if w[0] in DUP_IDX:
+        best = case
+        changed = True
+        while changed:
+            changed = False
+            cands = dup_variants(best["input"])
+            for cc in diff_side(ctx, me, cands):
+                v = judge(ctx, cc)
+                if v and v[0] == "spec":
+                    cc["why"] = v[1]; best = cc; changed = True
+                    break
+        return best
     ops = B.script_ops(case["input"])
     best = case
     changed = True
